@@ -49,7 +49,7 @@ pub fn item_str(i: &BaoContentItem) -> String {
         BaoContentItem::Leaf(l) => format!("L{}/{}", l.offset, dig(&l.data)),
     }
 }
-fn join(v: Vec<String>) -> String {
+pub fn join(v: Vec<String>) -> String {
     if v.is_empty() {
         "-".into()
     } else {
@@ -666,4 +666,91 @@ pub fn op_enc2(args: &[&str]) -> String {
     let mut sink = sink;
     let r = sync::decode_ranges(&e2[..], &q1, &mut target, &mut sink);
     format!("{} {} {}", dig(&e1), dig(&e2), r.map(|_| "Done".to_string()).unwrap_or_else(|e| dec_err(&e)))
+}
+
+/// extended corruption: `d<pos>^x`, `o<pos>^x`, `r<pos>^x` (root), `Zd<a>:<len>` / `Zo<a>:<len>` (zero a region)
+pub fn corrupt_ext(spec: &str, data: &mut [u8], ob: &mut [u8], root: &mut [u8; 32]) {
+    if spec == "-" {
+        return;
+    }
+    for c in spec.split(',') {
+        if let Some(rest) = c.strip_prefix('Z') {
+            let (which, rest) = rest.split_at(1);
+            let (a, len) = rest.split_once(':').unwrap();
+            let a: usize = a.parse().unwrap();
+            let len: usize = len.parse().unwrap();
+            let tgt = if which == "d" { &mut *data } else { &mut *ob };
+            for i in a..(a + len).min(tgt.len()) {
+                tgt[i] = 0;
+            }
+        } else if let Some(rest) = c.strip_prefix('r') {
+            let (pos, x) = rest.split_once('^').unwrap();
+            let pos: usize = pos.parse().unwrap();
+            root[pos % 32] ^= x.parse::<u8>().unwrap();
+        } else {
+            corrupt(c, data, ob);
+        }
+    }
+}
+
+/// `valid <sync|fsm> <store> <blob> <bs> <ranges> <corruption> <data|ob>`
+pub fn op_valid(args: &[&str]) -> String {
+    use bao_tree::ChunkNum;
+    let fl = args[0];
+    let kind = args[1];
+    let mut data = blob(args[2]);
+    let bs = bs_of(args[3]);
+    let ranges = ranges_arg(args[4]);
+    let with_data = args[6] == "data";
+    let (root, tree, mut ob) = intact_store(kind, &data, bs);
+    let mut root_b = *root.as_bytes();
+    corrupt_ext(args[5], &mut data, &mut ob, &mut root_b);
+    let root = blake3::Hash::from(root_b);
+    let mut res: Vec<std::io::Result<std::ops::Range<ChunkNum>>> = Vec::new();
+    match fl {
+        "sync" => {
+            let (_, _) = with_sync_store!(kind, root, tree, ob, |o| {
+                if with_data {
+                    for r in sync::valid_ranges(&o, &data[..], &ranges) {
+                        res.push(r);
+                    }
+                } else {
+                    for r in sync::valid_outboard_ranges(&o, &ranges) {
+                        res.push(r);
+                    }
+                }
+            });
+        }
+        "fsm" => {
+            use futures_lite::StreamExt;
+            let d = Bytes::from(data.clone());
+            let (_, _) = with_fsm_store!(kind, root, tree, ob, |o| {
+                block_on(async {
+                    if with_data {
+                        let mut s = std::pin::pin!(fsm::valid_ranges(&mut o, d.clone(), &ranges));
+                        while let Some(r) = s.next().await {
+                            res.push(r);
+                        }
+                    } else {
+                        let mut s = std::pin::pin!(fsm::valid_outboard_ranges(&mut o, &ranges));
+                        while let Some(r) = s.next().await {
+                            res.push(r);
+                        }
+                    }
+                })
+            });
+        }
+        _ => panic!("bad flavour"),
+    }
+    let mut out = Vec::new();
+    let mut err = "ok".to_string();
+    for (i, r) in res.iter().enumerate() {
+        match r {
+            Ok(r) => out.push(format!("{}:{}", r.start.0, r.end.0)),
+            Err(e) => {
+                err = format!("{}@{}", io_err(e), if i + 1 == res.len() { "last" } else { "notlast" });
+            }
+        }
+    }
+    format!("{} {}", if out.is_empty() { "-".to_string() } else { out.join(",") }, err)
 }
